@@ -604,14 +604,24 @@ Proof.
   intros H. apply bs_ext. intros i. rewrite mem_inter. rewrite bs_subset_spec in H.
   destruct (mem i a) eqn:E; [now rewrite (H i E)|reflexivity].
 Qed.
-Lemma x86_restores allowed restrict_set nbprocs cur :
-  bs_subset cur allowed = true -> bs_is_empty cur = false ->
-  fst (x86_look_procs allowed restrict_set nbprocs cur) = cur.
+Lemma x86_procs_restores allowed restrict_set nbprocs orig cur :
+  bs_subset orig allowed = true -> bs_is_empty orig = false ->
+  fst (x86_look_procs allowed restrict_set nbprocs orig cur) = orig.
 Proof.
   intros Hs He. unfold x86_look_procs.
   destruct (x86_bind_loop allowed restrict_set (map N.of_nat (seq 0 nbprocs)) cur []) as [cur1 visited].
-  cbn [fst snd]. unfold ideal_set. rewrite (bs_inter_subset cur allowed Hs), He. reflexivity.
+  cbn [fst snd]. unfold ideal_set. rewrite (bs_inter_subset orig allowed Hs), He. reflexivity.
 Qed.
+(* what is saved is the THREAD binding: the calling thread ends where it started, whatever the other threads are bound to *)
+Lemma x86_restores allowed restrict nbprocs thread others :
+  bs_subset thread allowed = true -> bs_is_empty thread = false ->
+  fst (x86_look allowed restrict nbprocs thread others) = thread.
+Proof. intros Hs He. unfold x86_look, x86_query_thisthread. now apply x86_procs_restores. Qed.
+(* saving the process binding instead leaves the thread on the union of all threads *)
+Lemma x86_saving_proc_leaves_union allowed nbprocs thread others :
+  bs_subset (bs_union thread others) allowed = true -> bs_is_empty (bs_union thread others) = false ->
+  fst (x86_look_saving_proc allowed nbprocs thread others) = bs_union thread others.
+Proof. intros Hs He. unfold x86_look_saving_proc, x86_query_thisproc. now apply x86_procs_restores. Qed.
 
 (* ---------- the Linux hooks: which masks reach the kernel ---------- *)
 (* [kinv w]: every kernel call recorded so far carried only non-empty masks inside the complete
